@@ -5,6 +5,8 @@ mod globals;
 
 #[cfg(capy_verif)]
 mod verif_trace;
+#[cfg(capy_verif)]
+pub use verif_trace::take_unsafe_log as verif_take_unsafe_log;
 
 #[cfg(test)]
 mod tests;
@@ -730,6 +732,13 @@ impl<'a, F: EvalComptimeFn> InferenceCtx<'a, F> {
         #[cfg(capy_verif)]
         {
             verif_trace.end(self.to_infer.len());
+            verif_trace.names(|loc| match loc {
+                ConcreteLoc::Global(g) => g.to_naive().debug(self.interner),
+                ConcreteLoc::Lambda(l) => match get_naive_lambda_global(l.to_naive()) {
+                    Some(g) => format!("L:{}", g.debug(self.interner)),
+                    None => "L:?".to_string(),
+                },
+            });
             drop(verif_trace);
         }
 
@@ -750,8 +759,12 @@ impl<'a, F: EvalComptimeFn> InferenceCtx<'a, F> {
                     }
                 };
                 if is_extern {
+                    #[cfg(capy_verif)]
+                    verif_trace::unsafe_log(todo_loc, 2);
                     continue;
                 }
+                #[cfg(capy_verif)]
+                let verif_prev = std::mem::replace(&mut any_were_unsafe_to_compile, false);
 
                 let mut global_ctx = GlobalInferenceCtx {
                     loc: todo_loc,
@@ -797,6 +810,11 @@ impl<'a, F: EvalComptimeFn> InferenceCtx<'a, F> {
                             any_were_unsafe_to_compile = true;
                         }
                     }
+                }
+                #[cfg(capy_verif)]
+                {
+                    verif_trace::unsafe_log(todo_loc, any_were_unsafe_to_compile as u8);
+                    any_were_unsafe_to_compile |= verif_prev;
                 }
             }
         }
